@@ -1061,7 +1061,7 @@ Proof.
               rfn x = FAct (ACancel R) /\ In (Some (rnode x)) others /\ In k stops /\
               (forall f, rst x = Run f -> f = FAct (ACancel R)) /\ (rst x = Done \/ rst x = Stopped -> is_canc (nodes w) R = true)).
     { intros k x Hx. destruct (HR k x Hx) as [HC|(_ & _ & _ & Hret & _)]; [exact HC|discriminate]. }
-    destruct (nth_error others i) as [[o|]|] eqn:Eo; inversion Hm; subst s'; clear Hm; cbn [bset bw bpcv bP bR bstops].
+    destruct (nth_error others i) as [[o|]|] eqn:Eo; inversion Hm; subst s'; clear Hm; unfold bset; cbn [bw bpcv bP bR bstops].
     + (* register on o *)
       assert (Hin : In (Some o) others) by (eapply nth_error_In; eauto).
       split; [apply WInv_afterfunc; [exact HW|destruct HP as [Hl _]; specialize (Hwo o Hin); lia]|].
@@ -1079,12 +1079,12 @@ Proof.
     + (* nil other *)
       split; [exact HW|]. split; [unfold NInv; cbn; auto|]. split.
       * unfold GInv. cbn [bw bpcv bR bstops]. split; [exact Hlen|]. intros j o Hj Ho.
-        destruct (Nat.eq_dec j i) as [->|Hne]; [congruence|apply Hcov; [lia|exact Ho]].
+        destruct (Nat.eq_dec j i) as [->|Hne]; [congruence|apply (Hcov j o); [lia|exact Ho]].
       * intros k x Hx. left. apply (Hallc k x Hx).
     + (* end of loop *)
       split; [exact HW|]. split; [unfold NInv; cbn; auto|]. split.
       * unfold GInv. cbn [bw bpcv bR bstops]. split; [exact Hlen|]. intros j o Hj Ho.
-        apply nth_error_None in Eo. apply Hcov; [apply nth_error_lt in Ho; lia|exact Ho].
+        apply nth_error_None in Eo. apply (Hcov j o); [apply nth_error_lt in Ho; lia|exact Ho].
       * intros k x Hx. left. apply (Hallc k x Hx).
   - (* BStop *)
     destruct HN as (HP & HRd & HK). destruct HG as [Hlen Hcov].
@@ -1092,7 +1092,7 @@ Proof.
               rfn x = FAct (ACancel R) /\ In (Some (rnode x)) others /\ In k stops /\
               (forall f, rst x = Run f -> f = FAct (ACancel R)) /\ (rst x = Done \/ rst x = Stopped -> is_canc (nodes w) R = true)).
     { intros k x Hx. destruct (HR k x Hx) as [HC|(_ & _ & _ & Hret & _)]; [exact HC|discriminate]. }
-    inversion Hm; subst s'; clear Hm. cbn [bset bw bpcv bP bR bstops].
+    inversion Hm; subst s'; clear Hm. unfold bset; cbn [bw bpcv bP bR bstops].
     split; [apply WInv_afterfunc; [exact HW|destruct HRd as [Hlt _]; exact Hlt]|].
     split; [unfold NInv; cbn [bw bpcv bP bR w_afterfunc nodes]; auto|]. split.
     + unfold GInv. cbn [bw bpcv bR bstops w_afterfunc regs]. rewrite app_length. cbn [length]. split; [lia|]. split.
@@ -1111,3 +1111,273 @@ Proof.
            ++ cbn in Hp. discriminate.
         -- split; [discriminate|]. split; intros; discriminate.
 Qed.
+
+Lemma combine_step_inv primary others nenv s l s' :
+  wfc primary others nenv -> CInv primary others nenv s ->
+  combine_step true primary others nenv s l = Some s' -> CInv primary others nenv s'.
+Proof.
+  intros Hwf HI Hs. destruct l as [|r|n| |]; cbn [combine_step] in Hs; try discriminate.
+  - eapply cinv_main; eauto.
+  - destruct (w_hook (bw s) r) as [w'|] eqn:Eh; [|discriminate]. inversion Hs; subst s'. eapply cinv_hook; eauto.
+  - destruct (Nat.ltb_spec n nenv) as [Hn|Hn]; [|discriminate]. inversion Hs; subst s'. apply cinv_cancel; auto.
+Qed.
+
+Lemma combine_reach primary others ns sched :
+  wfc primary others (length ns) ->
+  CInv primary others (length ns) (run (combine_step true primary others (length ns)) (combine_init ns) sched).
+Proof.
+  intros Hwf. apply run_inv with (P := CInv primary others (length ns)).
+  - intros s l s'. apply combine_step_inv. exact Hwf.
+  - split; [apply WInv_init|]. split; [reflexivity|]. split; [split; reflexivity|apply RC_nil; reflexivity].
+Qed.
+
+(* the result is cancelled only if the primary or one of the non-nil others is *)
+Theorem combine_cancelled_only_if primary others ns sched :
+  wfc primary others (length ns) ->
+  let s := run (combine_step true primary others (length ns)) (combine_init ns) sched in
+  forall r, combine_ret s = Some r -> is_canc (nodes (bw s)) r = true -> src primary others (nodes (bw s)).
+Proof.
+  intros Hwf s r Hr Hk. destruct (combine_reach primary others ns sched Hwf) as (HW & HN & HG & HR). fold s in HW, HN, HG, HR.
+  unfold combine_ret in Hr. unfold NInv in HN. destruct (bpcv s); try discriminate; inversion Hr; subst r0; clear Hr.
+  - destruct HN as [(p & Hp & -> & Hkp)|(-> & [_ HP] & _)].
+    + left. eauto.
+    + destruct primary as [p|].
+      * destruct HP as [HP _]. left. exists p. split; [reflexivity|]. rewrite <- HP. exact Hk.
+      * destruct HP as (HP & _ & _ & Hk' & _). rewrite HP in Hk. congruence.
+  - destruct HN as (_ & _ & _ & Hs & _). exact Hs.
+  - destruct HN as (-> & _ & _ & HK). apply HK. exact Hk.
+Qed.
+
+(* once every hook goroutine has run: cancelled exactly when the primary or some non-nil other is *)
+Theorem combine_quiescent_iff primary others ns sched :
+  wfc primary others (length ns) ->
+  let s := run (combine_step true primary others (length ns)) (combine_init ns) sched in
+  combine_quiescent s = true ->
+  exists r, combine_ret s = Some r /\ (is_canc (nodes (bw s)) r = true <-> src primary others (nodes (bw s))).
+Proof.
+  intros Hwf s Hq. pose proof (combine_cancelled_only_if primary others ns sched Hwf) as Honly. fold s in Honly. cbv zeta in Honly.
+  destruct (combine_reach primary others ns sched Hwf) as (HW & HN & HG & HR). fold s in HW, HN, HG, HR.
+  unfold combine_quiescent in Hq. unfold combine_ret in *. unfold NInv in HN. unfold GInv in HG.
+  destruct (bpcv s) eqn:Epc; try discriminate; exists r; (split; [reflexivity|]); (split; [apply Honly; reflexivity|]).
+  - intros Hs. destruct HN as [(p & Hp & -> & Hkp)|(-> & [_ HP] & Hno)]; [exact Hkp|].
+    destruct Hs as [(p & Hp & Hk)|(o & Ho & _)]; [|exfalso; eapply Hno; eauto].
+    rewrite Hp in HP. destruct HP as [-> _]. exact Hk.
+  - intros _. destruct HN as (_ & _ & _ & _ & Hk). exact Hk.
+  - intros Hs. destruct HN as (-> & [_ HP] & HRd & _). destruct HRd as (_ & _ & _ & _ & _ & HPR).
+    destruct Hs as [(p & Hp & Hk)|(o & Ho & Hk)].
+    + rewrite Hp in HP. destruct HP as [HPp _]. rewrite HPp in HPR. apply HPR. exact Hk.
+    + destruct HG as (_ & Hcov & _). apply In_nth_error in Ho. destruct Ho as [j Hj].
+      destruct (Hcov j o (nth_error_lt _ _ _ Hj) Hj) as (k & x & Hx & Hf & Hn).
+      destruct (HW k x Hx) as (_ & Hpend & _). rewrite Hn in Hpend.
+      pose proof (proj1 (no_running_spec (bw s)) Hq k x Hx) as Hq2.
+      destruct (HR k x Hx) as [(_ & _ & _ & _ & Hfin)|(Hf' & _)]; [|congruence].
+      apply Hfin. destruct (rst x) eqn:Er; auto.
+      * specialize (Hpend eq_refl). congruence.
+      * exfalso. eapply (Hq2 f). reflexivity.
+Qed.
+
+(* no leak: once the result is cancelled and the hooks have run, no registration on any other context is left pending *)
+Theorem combine_no_leak primary others ns sched :
+  wfc primary others (length ns) ->
+  let s := run (combine_step true primary others (length ns)) (combine_init ns) sched in
+  combine_quiescent s = true ->
+  forall r, combine_ret s = Some r -> is_canc (nodes (bw s)) r = true ->
+  forall k x, nth_error (regs (bw s)) k = Some x -> rst x = Stopped \/ rst x = Done.
+Proof.
+  intros Hwf s Hq r Hr Hk k x Hx.
+  destruct (combine_reach primary others ns sched Hwf) as (HW & HN & HG & HR). fold s in HW, HN, HG, HR.
+  unfold combine_quiescent in Hq. unfold combine_ret in *. unfold NInv in HN. unfold GInv in HG.
+  destruct (bpcv s) eqn:Epc; try discriminate; inversion Hr; subst r0; clear Hr;
+    try (rewrite HG in Hx; destruct k; discriminate).
+  destruct HN as (-> & _). destruct HG as (_ & _ & q & Hq' & Hqf & Hqn).
+  pose proof (proj1 (no_running_spec (bw s)) Hq) as Hnr.
+  assert (Hnp : forall j y, nth_error (regs (bw s)) j = Some y -> rst y <> Pending).
+  { destruct (HW _ q Hq') as (_ & Hpend & _). rewrite Hqn in Hpend.
+    destruct (HR _ q Hq') as [(Hf' & _)|(_ & _ & _ & _ & Hns & _ & Hdone)]; [congruence|].
+    apply Hdone. destruct (rst q) eqn:Er; auto.
+    - specialize (Hpend eq_refl). congruence.
+    - congruence.
+    - exfalso. eapply (Hnr _ q Hq' f). exact Er. }
+  destruct (rst x) eqn:Er; auto.
+  - exfalso. exact (Hnp k x Hx Er).
+  - exfalso. exact (Hnr k x Hx f Er).
+Qed.
+
+Definition evol (ns ns' : list node) : Prop :=
+  ns' = ns \/ (exists n, ns' = map (mark n) ns) \/ (exists y, ns' = ns ++ [y]).
+
+Lemma evol_mono ns ns' : evol ns ns' -> mono ns ns'.
+Proof. intros [->|[(n & ->)|(y & ->)]]; [apply mono_refl|apply mono_mark|apply mono_snoc]. Qed.
+
+Lemma evol_static ns ns' : evol ns ns' ->
+  length ns <= length ns' /\ forall x, x < length ns -> vals_of ns' x = vals_of ns x /\ anc_of ns' x = anc_of ns x.
+Proof.
+  intros [->|[(n & ->)|(y & ->)]].
+  - auto.
+  - rewrite map_length. split; [lia|]. intros x _. split; [apply vals_of_mark|apply anc_of_mark].
+  - rewrite app_length. split; [lia|]. intros x Hx. split; [apply vals_of_snoc_old|apply anc_of_snoc_old]; exact Hx.
+Qed.
+
+Lemma hook_evol w r w' : w_hook w r = Some w' -> evol (nodes w) (nodes w').
+Proof. intros H. apply nodes_hook in H. destruct H as [->|(x & n & _ & _ & ->)]; [left; reflexivity|right; left; eauto]. Qed.
+
+Lemma combine_evol regstop primary others nenv s l s' :
+  combine_step regstop primary others nenv s l = Some s' -> evol (nodes (bw s)) (nodes (bw s')).
+Proof.
+  intros Hs. destruct l as [|r|n| |]; cbn [combine_step] in Hs; try discriminate.
+  - unfold combine_main in Hs. destruct (bpcv s) as [|i n| | | |i| |r|r|r]; try discriminate.
+    + destruct primary as [p|]; [destruct (is_canc (nodes (bw s)) p)|]; inversion Hs; subst s'; cbn; [left; reflexivity|left; reflexivity|right; right; eauto].
+    + destruct (nth_error others i) as [[o|]|]; [destruct (is_canc (nodes (bw s)) o)| |destruct (n =? 0)]; inversion Hs; subst s'; left; reflexivity.
+    + inversion Hs; subst s'. right; right. cbn. eauto.
+    + inversion Hs; subst s'. right; left. cbn. eauto.
+    + inversion Hs; subst s'. right; right. cbn. eauto.
+    + destruct (nth_error others i) as [[o|]|]; inversion Hs; subst s'; left; reflexivity.
+    + inversion Hs; subst s'. left. destruct regstop; reflexivity.
+  - destruct (w_hook (bw s) r) as [w'|] eqn:Eh; [|discriminate]. inversion Hs; subst s'. cbn. eapply hook_evol; eauto.
+  - destruct (n <? nenv); [|discriminate]. inversion Hs; subst s'. right; left. cbn. eauto.
+Qed.
+
+Definition VInv (ns : list node) (ns' : list node) : Prop :=
+  length ns <= length ns' /\ forall x, x < length ns -> vals_of ns' x = vals_of ns x.
+
+Lemma VInv_evol ns ns1 ns2 : VInv ns ns1 -> evol ns1 ns2 -> VInv ns ns2.
+Proof.
+  intros [Hl Hv] He. apply evol_static in He. destruct He as [Hl2 Hs]. split; [lia|].
+  intros x Hx. rewrite <- (Hv x Hx). apply Hs. lia.
+Qed.
+
+Lemma combine_vinv regstop primary others nenv ns sched :
+  VInv ns (nodes (bw (run (combine_step regstop primary others nenv) (combine_init ns) sched))).
+Proof.
+  apply run_inv with (P := fun s => VInv ns (nodes (bw s))).
+  - intros s l s' HV Hs. eapply VInv_evol; [exact HV|eapply combine_evol; eauto].
+  - split; [cbn; lia|auto].
+Qed.
+
+(* the result carries the primary's values (and no others) *)
+Theorem combine_values primary others ns sched :
+  wfc primary others (length ns) ->
+  let s := run (combine_step true primary others (length ns)) (combine_init ns) sched in
+  forall r, combine_ret s = Some r ->
+  vals_of (nodes (bw s)) r = match primary with Some p => vals_of ns p | None => [] end.
+Proof.
+  intros Hwf s r Hr. destruct (combine_reach primary others ns sched Hwf) as (HW & HN & HG & HR). fold s in HW, HN, HG, HR.
+  destruct (combine_vinv true primary others (length ns) ns sched) as [_ HV]. fold s in HV.
+  assert (HPv : Pdef primary (length ns) (nodes (bw s)) (bP s) ->
+                vals_of (nodes (bw s)) (bP s) = match primary with Some p => vals_of ns p | None => [] end).
+  { intros [_ HP]. destruct primary as [p|].
+    - destruct HP as [-> Hp]. apply HV. exact Hp.
+    - destruct HP as (-> & _ & _ & _ & Hv). exact Hv. }
+  unfold combine_ret in Hr. unfold NInv in HN. destruct (bpcv s); try discriminate; inversion Hr; subst r0; clear Hr.
+  - destruct HN as [(p & Hp & -> & Hkp)|(-> & HP & _)]; [|apply HPv; exact HP].
+    rewrite Hp. apply HV. destruct Hwf as [Hwp _]. apply Hwp. exact Hp.
+  - destruct HN as (-> & HP & HRd & _). destruct HRd as (_ & _ & _ & _ & Hv & _). rewrite Hv. apply HPv. exact HP.
+  - destruct HN as (-> & HP & HRd & _). destruct HRd as (_ & _ & _ & _ & Hv & _). rewrite Hv. apply HPv. exact HP.
+Qed.
+
+(* "already cancelled if any input already is": whatever happens during the call, if the primary or a non-nil other was
+   cancelled before the call, the context that CombineContext returns is cancelled at the moment it is returned *)
+Definition PreA (p : nat) (s : bst) : Prop :=
+  is_canc (nodes (bw s)) p = true /\
+  (bpcv s = BStart \/ exists r, bpcv s = BRetP r /\ is_canc (nodes (bw s)) r = true).
+
+Definition PreB (k o : nat) (s : bst) : Prop :=
+  is_canc (nodes (bw s)) o = true /\
+  match bpcv s with
+  | BStart | BEarlyNew | BEarlyCancel | BRetE _ => True
+  | BCheck i _ => i <= k
+  | BRetP r => is_canc (nodes (bw s)) r = true
+  | _ => False
+  end.
+
+Lemma preA_step regstop p others nenv s l s' :
+  PreA p s -> combine_step regstop (Some p) others nenv s l = Some s' -> PreA p s'.
+Proof.
+  intros [Hk Hpc] Hs. pose proof (evol_mono _ _ (combine_evol _ _ _ _ _ _ _ Hs)) as Hm.
+  split; [apply Hm; exact Hk|].
+  destruct l as [|r|n| |]; cbn [combine_step] in Hs; try discriminate.
+  - destruct Hpc as [Hpc|(r & Hpc & Hkr)]; unfold combine_main in Hs; rewrite Hpc in Hs; [|discriminate].
+    rewrite Hk in Hs. inversion Hs; subst s'. right. exists p. cbn. auto.
+  - destruct (w_hook (bw s) r) as [w'|] eqn:Eh; [|discriminate]. inversion Hs; subst s'. cbn [bset bpcv bw] in *.
+    destruct Hpc as [Hpc|(r0 & Hpc & Hkr)]; [left; exact Hpc|right; exists r0; split; [exact Hpc|apply Hm; exact Hkr]].
+  - destruct (n <? nenv); [|discriminate]. inversion Hs; subst s'. cbn [bset bpcv bw] in *.
+    destruct Hpc as [Hpc|(r0 & Hpc & Hkr)]; [left; exact Hpc|right; exists r0; split; [exact Hpc|apply Hm; exact Hkr]].
+Qed.
+
+Lemma preB_step regstop primary others nenv k o s l s' :
+  nth_error others k = Some (Some o) ->
+  PreB k o s -> combine_step regstop primary others nenv s l = Some s' -> PreB k o s'.
+Proof.
+  intros Hko [Hk Hpc] Hs. pose proof (evol_mono _ _ (combine_evol _ _ _ _ _ _ _ Hs)) as Hm.
+  split; [apply Hm; exact Hk|].
+  destruct l as [|r|n| |]; cbn [combine_step] in Hs; try discriminate.
+  - unfold combine_main in Hs. destruct (bpcv s) as [|i n| | | |i| |r|r|r]; try contradiction; try discriminate.
+    + destruct primary as [p|]; [destruct (is_canc (nodes (bw s)) p) eqn:Ep|]; inversion Hs; subst s'; cbn; [exact Ep|lia|lia].
+    + destruct (nth_error others i) as [[o'|]|] eqn:Eo.
+      * destruct (is_canc (nodes (bw s)) o') eqn:Eo'; inversion Hs; subst s'; cbn; [exact I|].
+        destruct (Nat.eq_dec i k) as [->|Hne]; [|lia]. congruence.
+      * inversion Hs; subst s'; cbn. destruct (Nat.eq_dec i k) as [->|Hne]; [congruence|lia].
+      * apply nth_error_None in Eo. apply nth_error_lt in Hko. lia.
+    + inversion Hs; subst s'. exact I.
+    + inversion Hs; subst s'. exact I.
+  - destruct (w_hook (bw s) r) as [w'|] eqn:Eh; [|discriminate]. inversion Hs; subst s'. cbn [bset bpcv bw] in *.
+    destruct (bpcv s); auto.
+  - destruct (n <? nenv); [|discriminate]. inversion Hs; subst s'. cbn [bset bpcv bw] in *.
+    destruct (bpcv s); auto.
+Qed.
+
+Theorem combine_already_cancelled primary others ns sched :
+  wfc primary others (length ns) ->
+  src primary others ns ->
+  let s := run (combine_step true primary others (length ns)) (combine_init ns) sched in
+  forall r, combine_ret s = Some r -> is_canc (nodes (bw s)) r = true.
+Proof.
+  intros Hwf Hsrc s r Hr.
+  destruct (combine_reach primary others ns sched Hwf) as (_ & HN & _ & _). fold s in HN.
+  destruct Hsrc as [(p & -> & Hk)|(o & Ho & Hk)].
+  - assert (HA : PreA p s).
+    { apply run_inv with (P := PreA p); [intros s0 l s1; apply preA_step|]. split; [exact Hk|left; reflexivity]. }
+    destruct HA as [_ [Hpc|(r0 & Hpc & Hkr)]]; unfold combine_ret in Hr; rewrite Hpc in Hr; [discriminate|]. congruence.
+  - apply In_nth_error in Ho. destruct Ho as [k Hko].
+    assert (HB : PreB k o s).
+    { apply run_inv with (P := PreB k o); [intros s0 l s1; apply preB_step; exact Hko|]. split; [exact Hk|exact I]. }
+    destruct HB as [_ HB]. unfold combine_ret in Hr. unfold NInv in HN.
+    destruct (bpcv s); try discriminate; try contradiction; inversion Hr; subst r0.
+    + exact HB.
+    + destruct HN as (_ & _ & _ & _ & Hkr). exact Hkr.
+Qed.
+
+(* DEFECT variant (regstop = false): stops.Stop is never registered: after the primary is cancelled the hook on the
+   other context stays registered (Pending) for ever *)
+Theorem combine_nostop_refuted :
+  exists ns sched,
+    let s := run (combine_step false (Some 0) [Some 1] 2) (combine_init ns) sched in
+    combine_quiescent s = true /\ combine_ret s = Some 2 /\ is_canc (nodes (bw s)) 2 = true /\
+    exists x, nth_error (regs (bw s)) 0 = Some x /\ rst x = Pending.
+Proof.
+  exists (build_env [ {| eparent := None; ekv := None |}; {| eparent := None; ekv := None |} ] []).
+  exists [LMain; LMain; LMain; LMain; LMain; LMain; LMain; LCancel 0]. vm_compute.
+  repeat split; eauto.
+Qed.
+
+Example combine_other_cancels_and_deregisters :
+  let ns := build_env [ {| eparent := None; ekv := Some (7, 70) |}; {| eparent := None; ekv := Some (7, 71) |};
+                        {| eparent := None; ekv := None |} ] [] in
+  let step := combine_step true (Some 0) [None; Some 1; Some 2] 3 in
+  let s0 := combine_settle true (Some 0) [None; Some 1; Some 2] 3 50 (combine_init ns) in
+  let s1 := combine_settle true (Some 0) [None; Some 1; Some 2] 3 50 (run step s0 [LCancel 2]) in
+  combine_ret s0 = Some 3 /\ is_canc (nodes (bw s0)) 3 = false /\ lookup (vals_of (nodes (bw s0)) 3) 7 = Some 70 /\
+  combine_quiescent s1 = true /\ is_canc (nodes (bw s1)) 3 = true /\
+  map rst (regs (bw s1)) = [Stopped; Done; Done].
+Proof. vm_compute. repeat split; reflexivity. Qed.
+
+Example wfc_example : wfc (Some 0) [None; Some 1; Some 2] 3.
+Proof. split; [intros p H; inversion H; lia|]. intros o [H|[H|[H|[]]]]; inversion H; lia. Qed.
+
+(* a cancellation that lands between the Err() check and the AfterFunc registration is not lost *)
+Example combine_cancel_during_construction :
+  let ns := build_env [ {| eparent := None; ekv := None |}; {| eparent := None; ekv := None |} ] [] in
+  let step := combine_step true (Some 0) [Some 1] 2 in
+  let s := combine_settle true (Some 0) [Some 1] 2 50 (run step (combine_init ns) [LMain; LMain; LMain; LCancel 1]) in
+  combine_quiescent s = true /\ combine_ret s = Some 2 /\ is_canc (nodes (bw s)) 2 = true.
+Proof. vm_compute. repeat split; reflexivity. Qed.
